@@ -1817,7 +1817,10 @@ class OutlineTTFCompiler(BaseOutlineCompiler):
 
     def setupOtherTables(self):
         self.instructionCompiler = InstructionCompiler(
-            self.ufo, self.otf, autoUseMyMetrics=self.autoUseMyMetrics
+            self.ufo,
+            self.otf,
+            autoUseMyMetrics=self.autoUseMyMetrics,
+            glyphSet=self.allGlyphs,
         )
 
         self.setupTable_glyf()
